@@ -54,12 +54,18 @@ func (p *parseContext) Defer(tokens []lexer.Token, strct reflect.Value, field st
 
 // Apply deferred functions.
 func (p *parseContext) Apply() error {
-	for _, apply := range p.apply {
+	return p.ApplyFrom(0)
+}
+
+// ApplyFrom applies the functions deferred since the context held "mark" of them,
+// leaving the earlier ones (those of enclosing productions) deferred.
+func (p *parseContext) ApplyFrom(mark int) error {
+	for _, apply := range p.apply[mark:] {
 		if err := setField(apply.tokens, apply.strct, apply.field, apply.fieldValue); err != nil {
 			return err
 		}
 	}
-	p.apply = nil
+	p.apply = p.apply[:mark]
 	return nil
 }
 
